@@ -96,6 +96,28 @@ def gen_history(rng):
     chunks = []
     tables = []
     k = rng.randint(2, 7)
+    if rng.random() < 0.3:
+        # rotate / recreate patterns: the same statement text occurs twice in the history (so two files of a layout can be
+        # byte-identical) with a rename, drop or alteration of the object in between
+        for j in range(rng.randint(1, 2)):
+            t = rng.choice(["events", "jobs", "audit_log"]) + ("" if j == 0 else "_%d" % j)
+            create = "CREATE TABLE %s (id int, %s);" % (t, rng.choice(["payload text", "state text NOT NULL", "n bigint"]))
+            shape = rng.choice(["rename", "rename_drop", "drop", "if_not_exists", "rename_col"])
+            if shape == "rename":
+                chunks += [[create], ["ALTER TABLE %s RENAME TO %s_archive;" % (t, t)], [create]]
+            elif shape == "rename_drop":
+                chunks += [[create], ["ALTER TABLE %s RENAME TO %s_old;" % (t, t)], ["DROP TABLE %s_old;" % t], [create]]
+            elif shape == "drop":
+                chunks += [[create], ["ALTER TABLE %s ADD COLUMN extra text;" % t], ["DROP TABLE %s;" % t], [create]]
+            elif shape == "if_not_exists":
+                c2 = create.replace("CREATE TABLE", "CREATE TABLE IF NOT EXISTS")
+                chunks += [[c2], ["ALTER TABLE %s ADD COLUMN extra text;" % t], [c2]]
+            else:
+                add = "ALTER TABLE %s ADD COLUMN note text;" % t
+                chunks += [[create], [add], ["ALTER TABLE %s RENAME COLUMN note TO remark;" % t], [add]]
+        if rng.random() < 0.5:
+            chunks.insert(rng.randrange(len(chunks) + 1), ["CREATE TYPE mood AS ENUM ('ok', 'sad');"])
+        return chunks
     for i in range(k):
         r = rng.random()
         if r < 0.55 or not tables:
@@ -125,6 +147,9 @@ def layout_cases(rng):
     base = {"op": "generate", "files": {"sqlc.json": cfg("schema.sql"), "schema.sql": single, "q/query.sql": q}}
     # cut into consecutive groups
     ncut = rng.randint(1, len(chunks))
+    per_statement = rng.random() < 0.4
+    if per_statement:
+        ncut = len(chunks)          # one statement per file, no rollback parts: equal statements give byte-identical files
     cuts = sorted(rng.sample(range(1, len(chunks)), ncut - 1)) if len(chunks) > 1 else []
     groups, prev = [], 0
     for c in cuts + [len(chunks)]:
@@ -144,7 +169,7 @@ def layout_cases(rng):
     extra_names = {}
     for nm, g in zip(names, groups):
         body = "\n".join(l for c in g for l in c)
-        r_ = rng.random()
+        r_ = 1.0 if per_statement else rng.random()
         if r_ < 0.5:
             body += "\n" + marker + "\n" + "\n".join(down)
         elif r_ < 0.7:
@@ -153,7 +178,7 @@ def layout_cases(rng):
             rest = nm[:-4] + "_rest.sql"
             files_dir["mig/" + rest] = marker + "\n" + "\n".join(down) + rng.choice(["", "\n"])
             extra_names[nm] = rest
-        files_dir["mig/" + nm] = body + rng.choice(["", "\n"])
+        files_dir["mig/" + nm] = body + ("\n" if per_statement else rng.choice(["", "\n"]))
     for decoy in rng.sample(["mig/0_x.down.sql", "mig/.0_hidden.sql", "mig/0_readme.md", "mig/zz.sql.bak", "mig/1_m.down.sql"], rng.randint(0, 3)):
         files_dir[decoy] = "CREATE TABLE decoy (a int);\n"
     as_dir = {"op": "generate", "files": files_dir}
